@@ -37,7 +37,7 @@ func TestDebug(t *testing.T) {
 	dump := func(o *sc.Obs) {
 		fmt.Println("   ", o.Breakdown())
 		for _, v := range o.Vals {
-			fmt.Printf("    val %d role=%d st=%d exp=%v token=%s self=%s stake=%s RD=%s RT=%s last=%d dlg=%d cr=%d\n", sc.ValIndexByMain(v.MainAddress()), v.Role, v.Status, v.Expelled,
+			fmt.Printf("    val %d la=%d role=%d st=%d exp=%v token=%s self=%s stake=%s RD=%s RT=%s last=%d dlg=%d cr=%d\n", sc.ValIndexByMain(v.MainAddress()), v.LastActive(), v.Role, v.Status, v.Expelled,
 				v.Token, v.SelfToken, v.Stake, v.RewardsDistributable, v.RewardsTotal, v.RewardsLastSettled, len(v.Delegations), v.CommissionRate)
 			for _, d := range v.Delegations {
 				fmt.Printf("        dlg %d token=%s stake=%s\n", sc.AccountIndex(d.Delegator), d.Token, d.Stake)
